@@ -39,11 +39,11 @@ PROPS = {
     ),
     'C03': dict(
         title='SPIKE-Sync profile marks exactly the mutually coincident spikes', level='other',
-        groups=both(['get_tau_py.P', 'get_tau_pyx.P', 'sync_py.P', 'sync_pyx.P', 'lemmas.window', 'sync_py.B', 'sync_pyx.B', 'single_py.B', 'single_pyx.B', 'syncval_pyx.B']),
+        groups=both(['get_tau_py.P', 'get_tau_pyx.P', 'sync_py.P', 'sync_pyx.P', 'lemmas.window', 'sync_py.B', 'sync_pyx.B', 'single_py.P', 'single_pyx.P', 'single_py.B', 'single_pyx.B', 'syncval_pyx.B']),
         technique='window routine proved (loop-free, all inputs); scan kernels: bounded symbolic execution against the pairwise definition',
         explanation='get_tau proved equal to the window of the statement for all trains and indices; the profile scan (py + extracted pyx) '
                     'proved inductively in adjacent form (an event is marked iff coincident with the preceding or the following spike of the other train), '
-                    'lemmas: coincident pairs are adjacent, adjacent form = pairwise definition, one-to-one; additionally profile / per-spike indicator / '
+                    'lemmas: coincident pairs are adjacent, adjacent form = pairwise definition, one-to-one; the per-spike indicator (py + pyx) proved inductively in the same adjacent form (the fact that lets the scan skip the preceding spike is its first invariant clause); additionally profile / per-spike indicator / '
                     'single-pass kernels checked against the pairwise definition incl. mutual counting for all real inputs of the stated sizes',
     ),
     'C04': dict(
@@ -56,11 +56,11 @@ PROPS = {
     ),
     'C05': dict(
         title='Scalar = average of the profile', level='other',
-        groups=both(['plumb.profile_avg', 'isidist_pyx.B', 'spikedist_pyx.B', 'syncval_pyx.B', 'orderval_pyx.B',
+        groups=both(['plumb.profile_avg', 'isidist_pyx.P', 'spikedist_pyx.P', 'spikedist_ri_pyx.P', 'isidist_pyx.B', 'spikedist_pyx.B', 'syncval_pyx.B', 'orderval_pyx.B',
                      'pwc_avrg.B', 'pwl_avrg.B', 'disc_avrg.B', 'pwc_integral.B', 'pwl_integral.B', 'disc_integral.B']),
-        technique='wrappers executed on formal terms (scalar route vs averaged profile route); compiled single-pass routines: bounded self-composition with the profile kernels',
+        technique='wrappers executed on formal terms (scalar route vs averaged profile route); compiled single-pass ISI / SPIKE distances: inductive VCs with the profile as ghost state (events, covering cursors, partial sums characterised pointwise); other single-pass routines: bounded self-composition with the profile kernels',
         explanation='for every entry point, call form, keyword class, emptiness pattern and interval the scalar route and the average of the '
-                    'profile route reduce to the same normal form; compiled single-pass distances equal the average of the profile kernel; '
+                    'profile route reduce to the same normal form; isi_distance_cython and spike_distance_cython (RI off / on) proved for all trains: the result is PS[n]/(t_end-t_start) where the ghost segmentation satisfies the profile postcondition of C01 / C02 and PS[k+1] = PS[k] + value(segment k) * length (trapezoid for SPIKE); compiled single-pass distances also bounded against the profile kernel; '
                     'avrg of each class is integral/length (C10/C11 contracts)',
     ),
     'C06': dict(
@@ -113,8 +113,8 @@ PROPS = {
         title='Compiled and fallback backends agree', level='other',
         groups=both(['isi_py.P', 'isi_pyx.P', 'gmd_py.P', 'gmd_prof_pyx.P', 'gmd_dist_pyx.P', 'dist_at_t_py.P', 'dist_at_t_prof_pyx.P', 'dist_at_t_dist_pyx.P',
                      'get_tau_py.P', 'get_tau_pyx.P', 'addpwc_py.P', 'addpwc_pyx.P', 'sync_py.P', 'sync_pyx.P', 'order_py.P', 'order_pyx.P', 'dir_py.P', 'dir_pyx.P'] + SPIKEP + ['spike_py.B', 'spike_pyx.B', 'sync_py.B', 'sync_pyx.B',
-                     'single_py.B', 'single_pyx.B', 'order_py.B', 'order_pyx.B', 'dir_py.B', 'dir_pyx.B', 'addpwl_py.P', 'addpwl_pyx.P', 'adddisc_py.P', 'adddisc_pyx.P', 'addpwl_py.B', 'addpwl_pyx.B',
-                     'adddisc_py.B', 'adddisc_pyx.B', 'isidist_pyx.B', 'spikedist_pyx.B', 'syncval_pyx.B', 'orderval_pyx.B', 'dirval_pyx.B']),
+                     'single_py.P', 'single_pyx.P', 'single_py.B', 'single_pyx.B', 'order_py.B', 'order_pyx.B', 'dir_py.B', 'dir_pyx.B', 'addpwl_py.P', 'addpwl_pyx.P', 'adddisc_py.P', 'adddisc_pyx.P', 'addpwl_py.B', 'addpwl_pyx.B',
+                     'adddisc_py.B', 'adddisc_pyx.B', 'isidist_pyx.P', 'spikedist_pyx.P', 'spikedist_ri_pyx.P', 'isidist_pyx.B', 'spikedist_pyx.B', 'syncval_pyx.B', 'orderval_pyx.B', 'dirval_pyx.B']),
         technique='both members of every routine pair verified against the same functional contract (P where proved, B otherwise); .pyx as mechanically extracted text',
         explanation='each pair shares one postcondition that determines the result, so agreement follows; single-pass distances against the '
                     'average of the profile kernel. The real C extension cannot be built here (no Cython): C semantics are an assumption',
@@ -144,14 +144,14 @@ PROPS = {
     ),
     'C16': dict(
         title='max_tau is an upper bound on the coincidence window', level='other',
-        groups=both(['get_tau_py.P', 'get_tau_pyx.P', 'lemmas.window', 'sync_py.P', 'order_py.P', 'sync_py.B', 'order_py.B', 'dir_py.B', 'single_py.B', 'sync_pyx.B', 'maxtau_sync.B', 'maxtau_single.B', 'plumb.forms', 'plumb.filter']),
+        groups=both(['get_tau_py.P', 'get_tau_pyx.P', 'lemmas.window', 'sync_py.P', 'order_py.P', 'sync_py.B', 'order_py.B', 'dir_py.B', 'single_py.P', 'single_pyx.P', 'single_py.B', 'sync_pyx.B', 'maxtau_sync.B', 'maxtau_single.B', 'plumb.forms', 'plumb.filter']),
         technique='window routine proved for all inputs (loop-free VCs); scan kernels bounded',
         explanation='get_tau returns the C03 window capped at half the limit it is given (= max_tau); monotone in the limit (L); '
                     'coincident pairs closer than max_tau in every scan kernel (bounded)',
     ),
     'C17': dict(
         title='The SPIKE-Sync filter keeps exactly the spikes above threshold', level='other',
-        groups=both(['plumb.filter', 'single_py.B', 'single_pyx.B']),
+        groups=both(['plumb.filter', 'single_py.P', 'single_pyx.P', 'single_py.B', 'single_pyx.B']),
         technique='real filter executed on every 0/1 outcome of the indicator kernel (bounded); indicator kernel under contract',
         explanation='keep iff count > threshold*(N-1), removed iff <=, partition in order on the original interval, inputs unchanged, one '
                     'indicator call per ordered pair with the given max_tau / MRTS; the indicator agrees with the pairwise definition (C03)',
@@ -164,7 +164,7 @@ PROPS = {
                      'an abstraction that can only lose proofs, not create them'],
         title='Every valid input yields a finite, well-formed result without error', level='other',
         groups=both(['plumb.degenerate', 'isi_py.P', 'isi_pyx.P'] + SPIKEP + ['spike_py.B', 'spike_pyx.B', 'sync_py.B', 'order_py.B', 'dir_py.B',
-                     'isidist_pyx.B', 'spikedist_pyx.B', 'isilen.B', 'thresh.B', 'nonempty.P']),
+                     'isidist_pyx.P', 'spikedist_pyx.P', 'spikedist_ri_pyx.P', 'isidist_pyx.B', 'spikedist_pyx.B', 'isilen.B', 'thresh.B', 'nonempty.P']),
         technique='safety obligations (index bounds, asserts, finiteness flags, no exception) of all kernels + wrappers on formal terms over all emptiness patterns',
         explanation='kernel safety and well-formedness clauses incl. one-spike, edge and identical trains; public functions on every pattern of '
                     'empty trains: no exception, no zero-denominator ratio',
